@@ -146,10 +146,10 @@ INVS = "TypeOK MTypeOK ChannelFifoOnce MutexExclusive SemaphoreBound FailureOnly
        "NoLostWakeup ReadyRan CancelTerminates IdleObservation CleanupReturns AllTerminated"
 
 
-def write_cfg(name, programs, seminit="Zeros", clogic="Zeros", asfound_wake=False, asfound_cleanup=False, emit=True):
+def write_cfg(name, programs, seminit="Zeros", clogic="Zeros", asfound_wake=False, asfound_cleanup=False, emit=True, maxr=3):
     """Configurations are generated (one place to see every bounded scope); they live next to the specs."""
     path = os.path.join(vlib.SPEC, SPEC, name)
-    body = ["\\* generated by checks/c18.py", "CONSTANTS", "  MaxR = 3", "  NP = 1", "  SemInit <- %s" % seminit,
+    body = ["\\* generated by checks/c18.py", "CONSTANTS", "  MaxR = %d" % maxr, "  NP = 1", "  SemInit <- %s" % seminit,
             "  CondLogic <- %s" % clogic, "  AsFoundWake = %s" % ("TRUE" if asfound_wake else "FALSE"),
             "  AsFoundCleanup = %s" % ("TRUE" if asfound_cleanup else "FALSE"), "  Which = \"%s\"" % programs, "  Programs <- ProgSel",
             "SPECIFICATION Spec", "INVARIANTS " + INVS]
@@ -174,7 +174,11 @@ def parse_programs(out):
 
 
 # (cfg name, program sequence of MC_Coroutine.tla, SemInit, CondLogic)
-QUICK = [("MC_quick.cfg", "ProgQuick", "Zeros", "Zeros"), ("MC_quick2.cfg", "ProgQuick2", "Ones", "Ones")]
+#  ProgStale: four routines - three waiters on ONE semaphore / channel / mutex, every placement of a cancelled or foreign-resumed
+#  waiter (oldest, middle, newest) x 0..3 wake-ups afterwards (a registration left behind swallows a later wake-up)
+QUICK = [("MC_quick.cfg", "ProgQuick", "Zeros", "Zeros"), ("MC_quick2.cfg", "ProgQuick2", "Ones", "Ones"),
+         ("MC_stale.cfg", "ProgStale", "Zeros", "Zeros")]
+MAXR = {"ProgStale": 4}
 THOROUGH = [("MC_t%d.cfg" % i, "ProgT%d" % i, "Ones" if i == 9 else "Zeros", "Ones" if i == 9 else "Zeros") for i in range(1, 10)]
 # as-found configurations: the model of the code BEFORE the repairs must violate the property (non-vacuity)
 ASFOUND_QUICK = [("MC_asfound_wake.cfg", "ProgAsFoundWake", dict(asfound_wake=True), "NoLostWakeup"),
@@ -200,7 +204,7 @@ def run(ctx):
             for name, programs, kw, inv in ASFOUND_QUICK:
                 ctx.tlc_mc(SPEC, "MC_Coroutine.tla", write_cfg(name, programs, emit=False, **kw), expect=inv, coverage=False, timeout=600)
             for name, programs, seminit, clogic in QUICK:
-                ctx.tlc_mc(SPEC, "MC_Coroutine.tla", write_cfg(name, programs, seminit, clogic, emit=False), coverage=False, timeout=3000)
+                ctx.tlc_mc(SPEC, "MC_Coroutine.tla", write_cfg(name, programs, seminit, clogic, emit=False, maxr=MAXR.get(programs, 3)), coverage=False, timeout=3000)
         finally:
             _clean_ttrace()
         return
@@ -214,7 +218,7 @@ def run(ctx):
         # the programs, which are then executed on the real code
         nprog = 0
         for i, (name, programs, seminit, clogic) in enumerate(fams):
-            r, out = ctx.tlc_mc(SPEC, "MC_Coroutine.tla", write_cfg(name, programs, seminit, clogic), coverage=(i == 0),
+            r, out = ctx.tlc_mc(SPEC, "MC_Coroutine.tla", write_cfg(name, programs, seminit, clogic, maxr=MAXR.get(programs, 3)), coverage=(i == 0),
                                 required_actions=INV_ACTIONS if i == 0 else (), timeout=3000)
             progs = parse_programs(out)
             del out
